@@ -175,6 +175,9 @@ class ArrObj:
         o = ArrObj(self.kind, self.arr, self.length, self.shape,
                    None if self.items is None else list(self.items), self.origin, self.name,
                    self.dtype, self.pykind)
+        for k, v in self.__dict__.items():
+            if k not in o.__dict__:
+                setattr(o, k, v)          # extra tags (nd, nonneg, ...)
         for k, v in kw.items():
             setattr(o, k, v)
         return o
@@ -266,7 +269,7 @@ def sto2(a, i, j, v):
 
 
 def kind_sort(kind):
-    return {'int': IntS, 'val': Val, 'bool': BoolS}[kind]
+    return {'int': IntS, 'val': Val, 'bool': BoolS, 'cset': CSetS}[kind]
 
 
 # ---------------------------------------------------------------------------------------------
@@ -344,3 +347,44 @@ def has_quantifier(t):
         _HASQ.clear()
     _HASQ[tid] = found
     return found
+
+
+class EnumMember:
+    """member of an enum.Enum class of /repo: only .name / .value are modelled"""
+    def __init__(self, cls, name, value):
+        self.cls, self.name, self.value = cls, name, value
+
+    def __eq__(self, o):
+        return isinstance(o, EnumMember) and (self.cls, self.name) == (o.cls, o.name)
+
+    def __hash__(self):
+        return hash((self.cls, self.name))
+
+    def __repr__(self):
+        return '<%s.%s>' % (self.cls, self.name)
+
+
+# A string cell that is observed only through `ch in cell` (NumPy '<U' arrays of arrow marks in dp.py): an
+# abstract "set of characters".  cs_has(t, code) <=> chr(code) in t.
+CSetS = z3.DeclareSort('CSetS')
+cs_has = z3.Function('cs_has', CSetS, IntS, BoolS)
+cs_add = z3.Function('cs_add', CSetS, IntS, CSetS)
+cs_empty = z3.Const('cs_empty', CSetS)
+
+
+def cset_axioms():
+    t = z3.Const('cs_t', CSetS)
+    c, d = z3.Ints('cs_c cs_d')
+    return [z3.ForAll([c], z3.Not(cs_has(cs_empty, c)), patterns=[cs_has(cs_empty, c)]),
+            z3.ForAll([t, c, d], cs_has(cs_add(t, c), d) == z3.Or(d == c, cs_has(t, d)), patterns=[cs_has(cs_add(t, c), d)])]
+
+
+def cs_of(s):
+    t = cs_empty
+    for ch in s:
+        t = cs_add(t, z3.IntVal(ord(ch)))
+    return t
+
+
+def is_cset(x):
+    return isinstance(x, z3.ExprRef) and x.sort() == CSetS
